@@ -12,11 +12,14 @@ package services
 //   oracle (model-free): the three HTTP responses (status, canonical header map minus Date, body bytes) are
 //     equal.  Echo services answer a JSON object with one key per request field, so a difference is
 //     attributed to the field that differs; the failure class is a deterministic function of the case.
+//     The same oracle runs a family of SIZED cases (c41SizeCorpus, c41GenSizeCase): bodies, header values and query
+//     values of 0 B to several MiB in both directions, a case being a short document ("data" repeated "rep" times).
 //   correspondence: the file transport is run with "retain", so the request JSON and the response JSON the
 //     real code wrote are read back and compared with the Lean model's encode/decode (egodriver C41).
 
 import (
 	"bytes"
+	"crypto/sha256"
 	"encoding/hex"
 	"encoding/json"
 	"fmt"
@@ -43,9 +46,26 @@ import (
 // ---------------------------------------------------------------- case description
 
 type c41Hdr struct {
-	Op string `json:"op"` // add | set | del
-	K  string `json:"k"`
-	V  string `json:"v"`
+	Op  string `json:"op"` // add | set | del
+	K   string `json:"k"`
+	V   string `json:"v"`
+	Rep int    `json:"rep,omitempty"` // > 0: the value is V repeated Rep times (built by the service at run time)
+}
+
+func (h c41Hdr) val() string {
+	if h.Rep > 0 {
+		return strings.Repeat(h.V, h.Rep)
+	}
+
+	return h.V
+}
+
+// c41Big is a request header line / query parameter whose value is V repeated Rep times: a case stays a short
+// document (the failing input of a size-dependent difference is readable) while the payload has any size.
+type c41Big struct {
+	K   string `json:"k"`
+	V   string `json:"v"`
+	Rep int    `json:"rep"`
 }
 
 type c41Svc struct {
@@ -57,6 +77,7 @@ type c41Svc struct {
 	Hdrs   []c41Hdr `json:"hdrs,omitempty"`   // gen: response header operations in order
 	Body   string   `json:"body,omitempty"`   // gen: echo | text | bytes | none
 	Data   string   `json:"data,omitempty"`   // gen: hex payload for text/bytes
+	Rep    int      `json:"rep,omitempty"`    // gen: > 0: the payload is Data repeated Rep times (strings.Repeat in the service)
 	Err    string   `json:"err,omitempty"`    // gen: "" | runtime | exit | compile | missing | print
 	ErrPos string   `json:"errpos,omitempty"` // before | after (the response was written)
 }
@@ -67,7 +88,10 @@ type c41Req struct {
 	URL     string         `json:"url"`     // request target (path?query)
 	Parts   map[string]any `json:"parts"`
 	Headers [][2]string    `json:"headers"`
-	Body    string         `json:"body"` // hex
+	Body    string         `json:"body"`               // hex
+	BodyRep int            `json:"bodyrep,omitempty"`  // > 0: the body is Body repeated BodyRep times
+	BigHdrs []c41Big       `json:"bighdrs,omitempty"`  // further header lines, after Headers
+	BigQry  []c41Big       `json:"bigquery,omitempty"` // further query parameters, appended to URL (k and v URL-safe)
 	User    string         `json:"user"`
 	Auth    bool           `json:"auth"`
 	Admin   bool           `json:"admin"`
@@ -85,6 +109,40 @@ type c41Resp struct {
 	Status  int                 `json:"status"`
 	Headers map[string][]string `json:"headers"`
 	Body    string              `json:"body"` // hex
+}
+
+// body, headers, target: the request as sent, with the repeated parts expanded.
+func (q *c41Req) body() []byte {
+	b, _ := hex.DecodeString(q.Body)
+	if q.BodyRep > 0 {
+		b = bytes.Repeat(b, q.BodyRep)
+	}
+
+	return b
+}
+
+func (q *c41Req) headers() [][2]string {
+	hs := append([][2]string{}, q.Headers...)
+	for _, h := range q.BigHdrs {
+		hs = append(hs, [2]string{h.K, strings.Repeat(h.V, h.Rep)})
+	}
+
+	return hs
+}
+
+func (q *c41Req) target() string {
+	t := q.URL
+
+	for _, p := range q.BigQry {
+		sep := "?"
+		if strings.Contains(t, "?") {
+			sep = "&"
+		}
+
+		t += sep + p.K + "=" + strings.Repeat(p.V, p.Rep)
+	}
+
+	return t
 }
 
 // echo fields: key in the JSON body → Ego expression
@@ -123,6 +181,25 @@ func c41EgoString(s string) string {
 	return strings.TrimSuffix(buf.String(), "\n")
 }
 
+// c41EgoBytes renders bytes as an Ego byte array literal.
+func c41EgoBytes(data []byte) string {
+	parts := make([]string, len(data))
+	for i, x := range data {
+		parts[i] = fmt.Sprintf("%d", x)
+	}
+
+	return "[]byte{" + strings.Join(parts, ", ") + "}"
+}
+
+// c41EgoRepeat renders the Ego expression for a string expression repeated rep times (rep 0: as is).
+func c41EgoRepeat(expr string, rep int) string {
+	if rep > 0 {
+		return fmt.Sprintf("strings.Repeat(%s, %d)", expr, rep)
+	}
+
+	return expr
+}
+
 func c41PartSym(c *c41Case) string {
 	keys := make([]string, 0)
 
@@ -150,7 +227,18 @@ func c41Program(c *c41Case) string {
 
 	var b strings.Builder
 
-	b.WriteString("import \"http\"\n\nfunc handler(req http.Request, w *http.ResponseWriter) {\n")
+	b.WriteString("import \"http\"\n")
+
+	repeats := s.Rep > 0
+	for _, h := range s.Hdrs {
+		repeats = repeats || h.Rep > 0
+	}
+
+	if repeats {
+		b.WriteString("import \"strings\"\n")
+	}
+
+	b.WriteString("\nfunc handler(req http.Request, w *http.ResponseWriter) {\n")
 
 	if s.Err == "compile" {
 		b.WriteString("    this is not ) valid ego {{ syntax\n")
@@ -197,9 +285,9 @@ func c41Program(c *c41Case) string {
 		case "del":
 			fmt.Fprintf(&b, "    w.Header().Del(%s)\n", c41EgoString(h.K))
 		case "set":
-			fmt.Fprintf(&b, "    w.Header().Set(%s, %s)\n", c41EgoString(h.K), c41EgoString(h.V))
+			fmt.Fprintf(&b, "    w.Header().Set(%s, %s)\n", c41EgoString(h.K), c41EgoRepeat(c41EgoString(h.V), h.Rep))
 		default:
-			fmt.Fprintf(&b, "    w.Header().Add(%s, %s)\n", c41EgoString(h.K), c41EgoString(h.V))
+			fmt.Fprintf(&b, "    w.Header().Add(%s, %s)\n", c41EgoString(h.K), c41EgoRepeat(c41EgoString(h.V), h.Rep))
 		}
 	}
 
@@ -209,19 +297,23 @@ func c41Program(c *c41Case) string {
 
 	data, _ := hex.DecodeString(s.Data)
 
-	switch s.Body {
-	case "echo":
-		b.WriteString("    w.WriteJSON(result)\n")
-	case "text":
-		fmt.Fprintf(&b, "    w.Write(%s)\n", c41EgoString(string(data)))
-	case "bytes":
-		parts := make([]string, len(data))
-		for i, x := range data {
-			parts[i] = fmt.Sprintf("%d", x)
-		}
+	// a repeated payload is built by the service itself: the unit as a byte array literal (any bytes), repeated
+	big := c41EgoRepeat("string("+c41EgoBytes(data)+")", s.Rep)
 
-		fmt.Fprintf(&b, "    w.Write([]byte{%s})\n", strings.Join(parts, ", "))
-	case "print":
+	switch {
+	case s.Body == "echo":
+		b.WriteString("    w.WriteJSON(result)\n")
+	case s.Body == "text" && s.Rep > 0:
+		fmt.Fprintf(&b, "    w.Write(%s)\n", big)
+	case s.Body == "text":
+		fmt.Fprintf(&b, "    w.Write(%s)\n", c41EgoString(string(data)))
+	case s.Body == "bytes" && s.Rep > 0:
+		fmt.Fprintf(&b, "    w.Write([]byte(%s))\n", big)
+	case s.Body == "bytes":
+		fmt.Fprintf(&b, "    w.Write(%s)\n", c41EgoBytes(data))
+	case s.Body == "print" && s.Rep > 0:
+		fmt.Fprintf(&b, "    fmt.Println(%s)\n", big)
+	case s.Body == "print":
 		fmt.Fprintf(&b, "    fmt.Println(%s)\n", c41EgoString(string(data)))
 	}
 
@@ -270,17 +362,17 @@ func c41Run(env *c41Env, c *c41Case, file string, mode string) (resp c41Resp, re
 		}
 	}()
 
-	body, _ := hex.DecodeString(c.Req.Body)
+	body := c.Req.body()
 
-	u, perr := url.Parse(c.Req.URL)
+	u, perr := url.Parse(c.Req.target())
 	if perr != nil {
 		return resp, nil, nil, perr
 	}
 
-	r := httptest.NewRequest(c.Req.Method, "http://localhost"+c.Req.URL, bytes.NewReader(body))
+	r := httptest.NewRequest(c.Req.Method, "http://localhost"+c.Req.target(), bytes.NewReader(body))
 	r.Header = http.Header{}
 
-	for _, kv := range c.Req.Headers {
+	for _, kv := range c.Req.headers() {
 		// a Go HTTP server hands the handler canonical header names
 		k := http.CanonicalHeaderKey(kv[0])
 		r.Header[k] = append(r.Header[k], kv[1])
@@ -458,7 +550,7 @@ func c41GenAccept(rnd *rand.Rand) [][2]string {
 // of Accept lines and the index of the first Accept line containing "application/json" (-1 = none).
 func c41HeaderShape(q *c41Req) (multi, acceptLines, jsonAt int) {
 	hdr := http.Header{}
-	for _, kv := range q.Headers {
+	for _, kv := range q.headers() {
 		k := http.CanonicalHeaderKey(kv[0])
 		hdr[k] = append(hdr[k], kv[1])
 	}
@@ -674,15 +766,15 @@ func c41Corpus() []c41Case {
 		return c41Svc{Kind: "gen", Body: "text", Data: hex.EncodeToString([]byte("h")), Status: 200, Hdrs: ops}
 	}
 	cs = append(cs,
-		mk(hd(c41Hdr{"add", "X-One", "1"}), nil),
-		mk(hd(c41Hdr{"add", "X-Multi", "1"}, c41Hdr{"add", "X-Multi", "2"}), nil),
-		mk(hd(c41Hdr{"add", "Set-Cookie", "a=1"}, c41Hdr{"add", "Set-Cookie", "b=2"}), nil),
-		mk(hd(c41Hdr{"set", "X-One", "1"}, c41Hdr{"set", "X-One", "2"}), nil),
-		mk(hd(c41Hdr{"add", "X-One", "1"}, c41Hdr{"del", "X-One", ""}), nil),
-		mk(hd(c41Hdr{"add", "content-type", "text/plain"}), nil),
-		mk(hd(c41Hdr{"add", "Content-Type", "text/plain"}), func(q *c41Req) { q.Headers = [][2]string{{"Accept", "application/json"}} }),
+		mk(hd(c41Hdr{"add", "X-One", "1", 0}), nil),
+		mk(hd(c41Hdr{"add", "X-Multi", "1", 0}, c41Hdr{"add", "X-Multi", "2", 0}), nil),
+		mk(hd(c41Hdr{"add", "Set-Cookie", "a=1", 0}, c41Hdr{"add", "Set-Cookie", "b=2", 0}), nil),
+		mk(hd(c41Hdr{"set", "X-One", "1", 0}, c41Hdr{"set", "X-One", "2", 0}), nil),
+		mk(hd(c41Hdr{"add", "X-One", "1", 0}, c41Hdr{"del", "X-One", "", 0}), nil),
+		mk(hd(c41Hdr{"add", "content-type", "text/plain", 0}), nil),
+		mk(hd(c41Hdr{"add", "Content-Type", "text/plain", 0}), func(q *c41Req) { q.Headers = [][2]string{{"Accept", "application/json"}} }),
 		mk(hd(), func(q *c41Req) { q.Headers = [][2]string{{"Accept", "application/json"}} }),
-		mk(hd(c41Hdr{"add", "X-V", "été"}), nil),
+		mk(hd(c41Hdr{"add", "X-V", "été", 0}), nil),
 	)
 
 	for _, e := range []string{"runtime", "exit"} {
@@ -733,7 +825,7 @@ func c41HeaderCorpus() []c41Case {
 		// q-values, json on the third line, a service that writes text and no Content-Type
 		mk(text(200), "GET", "", a("text/plain;q=0.5"), a("application/xml;q=0.4"), a("application/json;q=0.9")),
 		// json on the first line only
-		mk(text(201, c41Hdr{"add", "X-One", "1"}), "POST", "{}", a("application/json"), a("text/plain"),
+		mk(text(201, c41Hdr{"add", "X-One", "1", 0}), "POST", "{}", a("application/json"), a("text/plain"),
 			[2]string{"Content-Type", "application/json"}, [2]string{"Content-Type", "text/plain"}),
 		// several lines, json on none of them ("json" in a vendor type and in another letter case is not application/json)
 		mk(text(200), "GET", "", a("text/plain"), a("application/vnd.ego.error+json"), a("Application/JSON;q=0.8")),
@@ -741,9 +833,9 @@ func c41HeaderCorpus() []c41Case {
 		// comma-separated lists on several lines, json at the end of the last line
 		mk(text(200), "GET", "", a("text/plain, text/html"), a("application/xml, application/json;q=0.1")),
 		// the service sets Content-Type itself: its value wins over the default on both sides
-		mk(text(200, c41Hdr{"add", "Content-Type", "text/plain; charset=utf-8"}), "GET", "", a("text/html"), a("application/json")),
+		mk(text(200, c41Hdr{"add", "Content-Type", "text/plain; charset=utf-8", 0}), "GET", "", a("text/html"), a("application/json")),
 		// the service deletes Content-Type after the fact
-		mk(text(200, c41Hdr{"del", "Content-Type", ""}), "GET", "", a("*/*;q=0.1"), a("application/json")),
+		mk(text(200, c41Hdr{"del", "Content-Type", "", 0}), "GET", "", a("*/*;q=0.1"), a("application/json")),
 		// differently spelled names of one header are one header; an empty line first
 		mk(echo("headers", "isjson"), "PUT", "x", [2]string{"accept", ""}, [2]string{"ACCEPT", "application/json"},
 			[2]string{"Accept-Language", "en"}, [2]string{"accept-language", "fr;q=0.5"}),
@@ -759,6 +851,249 @@ func c41HeaderCorpus() []c41Case {
 		mk(text(200), "GET", "", a("text/plain, application/json")),
 		mk(text(200), "GET", ""),
 	}
+}
+
+// ---------------------------------------------------------------- sizes
+//
+// The transports carry a request and a response as ONE JSON document each (a file, or a line on a socket); the
+// in-process path hands the same values over in memory.  Nothing in the property depends on how long a value is, so
+// the same service must answer the same through every transport for bodies and header values of 0 bytes, 1 byte, a
+// few KiB, either side of 64 KiB and of 1 MiB, and several MiB, whatever the content looks like: one long line, very
+// many lines, bytes that JSON escapes (the encoded document is up to six times longer than the value), multi-byte
+// runes, control bytes, and binary data.
+
+// c41Units: the content of a sized payload is a unit repeated.  Except for the last two (binary, for response
+// bodies) they are valid UTF-8, so no known finding class applies to them.
+var c41Units = [][]byte{
+	[]byte("x"),                            // one long line
+	[]byte("line of text\n"),               // very many lines
+	[]byte("a\r\n"),                        // CRLF line ends
+	[]byte("{\"k\":\"v\\n\"}\n"),           // JSON lines: quotes and backslashes are escaped in transit
+	[]byte("<&>\u2028\u2029"),              // escaped as \u00XX / \u202X by encoding/json
+	[]byte("\x00\x01\x08\x0c\x1b\x1f\x7f"), // control bytes: \u00XX in transit
+	[]byte("é☃𝄞"),                          // 2, 3 and 4 byte runes
+	[]byte(" \t"),                          // white space only
+	{0x89, 'P', 'N', 'G', 0x0d, 0x0a, 0x1a, 0x0a, 0x00, 0xff}, // binary
+	{0xc3, 0x28, 0xa0, 0xa1, 0x0a},                            // invalid UTF-8 with line ends
+}
+
+const c41TextUnits = 8 // the first c41TextUnits units are valid UTF-8
+
+func c41KiB(n int) int { return n << 10 }
+
+// c41SizeLadder: the sizes every payload kind is tried at (thorough), and the ones the generator draws around.
+func c41SizeLadder() []int {
+	return []int{0, 1, 2, c41KiB(4) - 1, c41KiB(4), c41KiB(4) + 1, c41KiB(64) - 1, c41KiB(64), c41KiB(64) + 1, c41KiB(256),
+		c41KiB(1024) - 1, c41KiB(1024), c41KiB(1024) + 1, c41KiB(3 * 1024), c41KiB(verifh.N(5*1024, 8*1024))}
+}
+
+// c41Sized gives Data/Rep (or V/Rep) for a payload of n bytes (rounded up to a whole number of units; n smaller than
+// the unit: the unit's first n bytes when that is still valid text, else one unit).
+func c41Sized(unit []byte, n int) (data []byte, rep int) {
+	if len(unit) == 0 {
+		return nil, 0
+	}
+
+	if n < len(unit) {
+		if utf8.Valid(unit[:n]) || !utf8.Valid(unit) {
+			return unit[:n], 0
+		}
+
+		return unit, 0
+	}
+
+	return unit, (n + len(unit) - 1) / len(unit)
+}
+
+func c41SizedSvc(kind string, unit []byte, n int, status int, ops ...c41Hdr) c41Svc {
+	data, rep := c41Sized(unit, n)
+
+	return c41Svc{Kind: "gen", Body: kind, Data: hex.EncodeToString(data), Rep: rep, Status: status, Hdrs: ops}
+}
+
+func c41SizedHdr(op, name string, unit []byte, n int) c41Hdr {
+	data, rep := c41Sized(unit, n)
+
+	return c41Hdr{Op: op, K: name, V: string(data), Rep: rep}
+}
+
+func c41SizedBig(name string, unit []byte, n int) c41Big {
+	data, rep := c41Sized(unit, n)
+	if rep == 0 {
+		rep = 1
+	}
+
+	return c41Big{K: name, V: string(data), Rep: rep}
+}
+
+// c41SizedQry: a query value is a whole number of units (a unit may be a percent escape).
+func c41SizedQry(name string, unit []byte, n int) c41Big {
+	return c41Big{K: name, V: string(unit), Rep: 1 + n/len(unit)}
+}
+
+func (q *c41Req) setSizedBody(unit []byte, n int) {
+	data, rep := c41Sized(unit, n)
+	q.Body, q.BodyRep = hex.EncodeToString(data), rep
+}
+
+// The first c41SizePinned cases of the size corpus run in every quick run.
+const c41SizePinned = 6
+
+func c41SizeCorpus() []c41Case {
+	mk := func(s c41Svc, method string, f func(q *c41Req)) c41Case {
+		q := c41Req{Method: method, Pattern: "/services/alpha", URL: "/services/alpha", Parts: map[string]any{"services": true, "alpha": true}}
+		if f != nil {
+			f(&q)
+		}
+
+		return c41Case{Svc: s, Req: q}
+	}
+	echo := func(keys ...string) c41Svc { return c41Svc{Kind: "gen", Body: "echo", Echo: keys, Status: 200} }
+	accept := func(v string) func(q *c41Req) {
+		return func(q *c41Req) { q.Headers = [][2]string{{"Accept", v}} }
+	}
+	u := c41Units
+
+	cs := []c41Case{
+		// --- pinned
+		// a response body of one long line, one byte over 64 KiB
+		mk(c41SizedSvc("text", u[0], c41KiB(64)+1, 200, c41Hdr{"add", "Content-Type", "text/plain", 0}), "GET", accept("text/plain")),
+		// a response body of several MiB, very many lines, bytes that are escaped in transit
+		mk(c41SizedSvc("bytes", append(append([]byte{}, u[3]...), u[5]...), c41KiB(3*1024), 200), "GET", nil),
+		// a request body just over 64 KiB, echoed (the response is as long) ...
+		mk(echo("body", "bodylen", "method"), "POST", func(q *c41Req) {
+			q.setSizedBody(u[3], c41KiB(64)+1)
+			q.Headers = [][2]string{{"Content-Type", "application/json"}, {"Accept", "application/json"}}
+		}),
+		// ... and one of 1 MiB of which only the length comes back (the response is short)
+		mk(echo("bodylen"), "PUT", func(q *c41Req) { q.setSizedBody(u[1], c41KiB(1024)) }),
+		// a response header value of 64 KiB beside a short body
+		mk(c41SizedSvc("text", []byte("short"), 5, 201, c41SizedHdr("add", "X-Big", u[0], c41KiB(64)), c41Hdr{"add", "X-One", "1", 0}), "GET", nil),
+		// a request header value of just over 64 KiB and a query value of 4 KiB, echoed
+		mk(echo("headers", "params"), "GET", func(q *c41Req) {
+			q.Headers = [][2]string{{"Accept", "text/plain"}, {"X-Trace", "t"}}
+			q.BigHdrs = []c41Big{c41SizedBig("X-Big", []byte("h, "), c41KiB(64)+1)}
+			q.BigQry = []c41Big{c41SizedQry("big", []byte("q%20"), c41KiB(4))}
+		}),
+	}
+
+	// --- the rest: every size of the ladder as a response body and as a request body, the unit changing with the size
+	for i, n := range c41SizeLadder() {
+		kind := []string{"text", "bytes"}[i%2]
+		cs = append(cs, mk(c41SizedSvc(kind, u[i%len(u)], n, 200), "GET", nil))
+		cs = append(cs, mk(echo("body", "bodylen"), "POST", func(q *c41Req) { q.setSizedBody(u[(i+3)%c41TextUnits], n) }))
+	}
+
+	cs = append(cs,
+		// the reply is JSON (w.Write of a string marshals it when only JSON is accepted): a JSON string of 64 KiB / 1 MiB
+		mk(c41SizedSvc("text", u[3], c41KiB(64), 200), "GET", accept("application/json")),
+		mk(c41SizedSvc("text", u[4], c41KiB(1024), 200), "GET", accept("application/json")),
+		// long bodies with other statuses
+		mk(c41SizedSvc("text", u[1], c41KiB(64)+1, 404), "GET", nil),
+		mk(c41SizedSvc("bytes", u[8], c41KiB(256), 500), "GET", accept("*/*")),
+		mk(c41SizedSvc("bytes", u[6], c41KiB(1024)+1, 201), "DELETE", nil),
+		// long header values: response (with a long body too; Set; two long headers), request (several lines of one name)
+		mk(c41SizedSvc("text", u[1], c41KiB(64), 200, c41SizedHdr("add", "X-Big", u[7], c41KiB(4)+1)), "GET", nil),
+		mk(c41SizedSvc("none", nil, 0, 204, c41SizedHdr("set", "Etag", u[0], c41KiB(1024))), "GET", nil),
+		mk(c41SizedSvc("text", []byte("ok"), 2, 200, c41SizedHdr("add", "X-One", u[6], c41KiB(64)-1), c41SizedHdr("add", "Location", []byte("/a"), c41KiB(64)+1)), "GET", nil),
+		mk(echo("headers", "isjson"), "GET", func(q *c41Req) {
+			q.Headers = [][2]string{{"Accept", "application/json"}}
+			q.BigHdrs = []c41Big{c41SizedBig("X-List", u[0], c41KiB(64)-1), c41SizedBig("x-list", u[6], c41KiB(4)), c41SizedBig("User-Agent", []byte("ua "), c41KiB(1024))}
+		}),
+		// the Accept header itself is long: application/json after 64 KiB of other media types
+		mk(c41SizedSvc("text", []byte("{}"), 2, 200), "GET", func(q *c41Req) {
+			q.BigHdrs = []c41Big{c41SizedBig("Accept", []byte("text/html;q=0.1, "), c41KiB(64))}
+			q.Headers = [][2]string{{"Accept", "application/json"}}
+		}),
+		// long query values
+		mk(echo("params", "urlpath"), "GET", func(q *c41Req) {
+			q.URL = "/services/alpha?a=1"
+			q.BigQry = []c41Big{c41SizedQry("big", []byte("%C3%A9"), c41KiB(64)), c41SizedQry("z", []byte("x"), c41KiB(64)+1)}
+		}),
+		// a long request body and a long response that is not its echo
+		mk(c41SizedSvc("bytes", u[9], c41KiB(64)+1, 200), "PATCH", func(q *c41Req) { q.setSizedBody(u[5], c41KiB(256)) }),
+		// a long text printed instead of written
+		mk(c41SizedSvc("print", u[1], c41KiB(64)+1, 200), "GET", nil),
+	)
+
+	return cs
+}
+
+// c41GenSize draws a payload size: on, next to, or a few hundred bytes below a ladder size (a limit on the encoded
+// document bites below the same limit on the value), or anywhere up to 2 MiB on a logarithmic scale.
+func c41GenSize(rnd *rand.Rand) int {
+	ladder := c41SizeLadder()
+	n := c41Pick(rnd, ladder[3:])
+
+	switch rnd.Intn(5) {
+	case 0:
+	case 1:
+		n += rnd.Intn(19) - 9
+	case 2:
+		n -= rnd.Intn(600)
+	case 3:
+		n += rnd.Intn(600)
+	default:
+		n = 1 << uint(rnd.Intn(22))
+		n += rnd.Intn(n)
+	}
+
+	if n < 0 {
+		n = 0
+	}
+
+	return n
+}
+
+// c41GenSizeCase: a generated request and service in which one or two parts have a drawn size.
+func c41GenSizeCase(rnd *rand.Rand) c41Case {
+	q := c41GenReq(rnd)
+	s := c41Svc{Kind: "gen", Body: "echo", Echo: []string{"bodylen", "method"}, Status: c41Pick(rnd, []int{0, 200, 200, 201, 404, 500})}
+	unit := func(all bool) []byte {
+		if all {
+			return c41Pick(rnd, c41Units)
+		}
+
+		return c41Pick(rnd, c41Units[:c41TextUnits])
+	}
+
+	for n, parts := 1+rnd.Intn(2), rnd.Perm(5); n > 0; n-- {
+		switch parts[n] {
+		case 0: // response body
+			s = c41SizedSvc(c41Pick(rnd, []string{"text", "bytes", "bytes"}), unit(true), c41GenSize(rnd), s.Status, s.Hdrs...)
+		case 1: // request body, echoed or measured
+			if q.Method == "GET" {
+				q.Method = "POST"
+			}
+
+			q.setSizedBody(unit(false), c41GenSize(rnd))
+
+			if s.Body == "echo" && rnd.Intn(2) == 0 {
+				s.Echo = []string{"body", "bodylen"}
+			}
+		case 2: // response header
+			s.Hdrs = append(s.Hdrs, c41SizedHdr(c41Pick(rnd, []string{"add", "set"}), c41Pick(rnd, []string{"X-Big", "Etag", "Location", "Content-Type"}),
+				c41Pick(rnd, [][]byte{[]byte("v"), []byte("a, b; "), []byte("é"), []byte("\"q\" ")}), c41GenSize(rnd)))
+		case 3: // request header, echoed
+			q.BigHdrs = append(q.BigHdrs, c41SizedBig(c41Pick(rnd, []string{"X-Big", "x-trace", "User-Agent", "Accept", "Content-Type"}),
+				c41Pick(rnd, [][]byte{[]byte("h"), []byte("a, b; "), []byte("☃"), []byte("text/plain, ")}), c41GenSize(rnd)))
+
+			if s.Body == "echo" {
+				s.Echo = append(s.Echo, "headers")
+			}
+		case 4: // query value, echoed
+			q.BigQry = append(q.BigQry, c41SizedQry(c41Pick(rnd, []string{"big", "a", "list"}), c41Pick(rnd, [][]byte{[]byte("x"), []byte("%20"), []byte("%E2%98%83")}),
+				c41GenSize(rnd)%(c41KiB(256))))
+
+			if s.Body == "echo" {
+				s.Echo = append(s.Echo, "params")
+			}
+		}
+	}
+
+	sort.Strings(s.Echo)
+
+	return c41Case{Svc: s, Req: q}
 }
 
 func c41Setup(t *testing.T) *c41Env {
@@ -865,18 +1200,17 @@ func c41Allowed(c *c41Case, in c41Resp) map[string]string {
 		al["body"] = "non-utf8-string"
 	}
 
-	reqBody, _ := hex.DecodeString(q.Body)
-	if c41InvalidUTF8(string(reqBody)) {
+	if c41InvalidUTF8(string(q.body())) {
 		al["body.body"], al["body.bodylen"] = "non-utf8-string", "non-utf8-string"
 	}
 
-	for _, kv := range q.Headers {
+	for _, kv := range q.headers() {
 		if c41InvalidUTF8(kv[1]) {
 			al["body.headers"] = "non-utf8-string"
 		}
 	}
 
-	if u, err := url.Parse(q.URL); err == nil {
+	if u, err := url.Parse(q.target()); err == nil {
 		for k, vs := range u.Query() {
 			if c41InvalidUTF8(k) || c41InvalidUTF8(strings.Join(vs, "")) {
 				al["body.params"] = "non-utf8-string"
@@ -1031,14 +1365,14 @@ func c41ReqLines(c *c41Case, doc []byte) (in, impl string) {
 	q := c.Req
 	hdr := http.Header{}
 
-	for _, kv := range q.Headers {
+	for _, kv := range q.headers() {
 		k := http.CanonicalHeaderKey(kv[0])
 		hdr[k] = append(hdr[k], kv[1])
 	}
 
 	text, js := c41Accepts(hdr)
-	u, _ := url.Parse("http://localhost" + q.URL)
-	body, _ := hex.DecodeString(q.Body)
+	u, _ := url.Parse("http://localhost" + q.target())
+	body := q.body()
 	in = strings.Join([]string{"req", fmt.Sprint(1000 + c.ID), verifh.Hex(q.Method), verifh.Hex(u.String()), verifh.Hex(q.Pattern),
 		verifh.Hex(q.User), verifh.Hex(q.Token), c41B(q.Auth, q.Admin, js, text), c41M(u.Query()), c41P(q.Parts), c41M(hdr),
 		c41L(q.Perms), verifh.Hex(string(body))}, " ")
@@ -1099,7 +1433,7 @@ func c41SvcHeaders(s c41Svc) map[string][]string {
 		if h.Op == "del" {
 			delete(m, h.K)
 		} else {
-			m[h.K] = append(m[h.K], h.V)
+			m[h.K] = append(m[h.K], h.val())
 		}
 	}
 
@@ -1234,6 +1568,41 @@ func c41Phase(env *c41Env, cases []c41Case, files []string, res []c41Result, mod
 	}
 }
 
+// c41ModelMax: the largest request / response (bytes of payload) that is also put through the Lean driver.
+func c41ModelMax() int { return c41KiB(verifh.N(160, 600)) }
+
+// c41Brief shortens a response for the failure record: a long body or header value is replaced by its length,
+// SHA-256 and both ends (the input of the failure regenerates it in full).
+func c41Brief(v any) any {
+	r, ok := v.(c41Resp)
+	if !ok {
+		return v
+	}
+
+	short := func(s string, isHex bool) string {
+		if len(s) <= 4096 {
+			return s
+		}
+
+		raw := []byte(s)
+		if isHex {
+			raw, _ = hex.DecodeString(s)
+		}
+
+		return fmt.Sprintf("len=%d sha256=%x head=%x tail=%x", len(raw), sha256.Sum256(raw), raw[:48], raw[len(raw)-24:])
+	}
+
+	out := c41Resp{Status: r.Status, Headers: map[string][]string{}, Body: short(r.Body, true)}
+
+	for k, vs := range r.Headers {
+		for _, x := range vs {
+			out.Headers[k] = append(out.Headers[k], short(x, false))
+		}
+	}
+
+	return out
+}
+
 // c41ViaJSON is the reference for a Go string that travelled through encoding/json.
 func c41ViaJSON(s string) string {
 	b, _ := json.Marshal(s)
@@ -1284,6 +1653,21 @@ func TestVerifC41(t *testing.T) {
 		cases = append(cases, c41Case{Svc: c41GenSvc(rnd), Req: c41GenReq(rnd)})
 	}
 
+	// sizes: the pinned cases and two generated ones in a quick run; the whole ladder and more generated ones otherwise
+	// (a separate PRNG: the cases above are the ones they were before this family existed)
+	srnd := verifh.Rand(4141)
+	sc := c41SizeCorpus()
+
+	if verifh.Thorough() || os.Getenv("VERIF_CASES") != "" {
+		cases = append(cases, sc...)
+	} else {
+		cases = append(cases, sc[:c41SizePinned]...)
+	}
+
+	for n := verifh.N(2, 40); n > 0; n-- {
+		cases = append(cases, c41GenSizeCase(srnd))
+	}
+
 	files := make([]string, len(cases))
 	for i := range cases {
 		cases[i].ID = i
@@ -1294,11 +1678,18 @@ func TestVerifC41(t *testing.T) {
 	start := time.Now()
 	workers := 8
 
-	c41Phase(env, cases, files, res, "inproc", 1)
-	c41Phase(env, cases, files, res, "pipe", workers)
-	c41Phase(env, cases, files, res, "file", workers)
-
 	co, fo, st := verifh.Out("c41_cases.jsonl"), verifh.Out("c41_failures.jsonl"), verifh.NewStats()
+
+	for _, ph := range []struct {
+		mode    string
+		workers int
+	}{{"inproc", 1}, {"pipe", workers}, {"file", workers}} {
+		t0 := time.Now()
+
+		c41Phase(env, cases, files, res, ph.mode, ph.workers)
+		st.Add("seconds_"+ph.mode, int(time.Since(t0).Seconds()))
+	}
+
 	distinct := map[string]bool{}
 
 	for i := range cases {
@@ -1309,7 +1700,7 @@ func TestVerifC41(t *testing.T) {
 
 		key := c41Program(c) + "\x00" + c.Svc.File + "\x00" + string(cj[bytes.Index(cj, []byte(`"req"`)):])
 		q := c.Req
-		if !distinct[key] && (len(q.Headers) > 0 || strings.Contains(q.URL, "?") || q.Body != "" || strings.Contains(q.Pattern, "{{") || q.Auth) {
+		if !distinct[key] && (len(q.Headers)+len(q.BigHdrs) > 0 || strings.Contains(q.target(), "?") || q.Body != "" || strings.Contains(q.Pattern, "{{") || q.Auth) {
 			st.Inc("distinct_nontrivial")
 		}
 
@@ -1337,9 +1728,36 @@ func TestVerifC41(t *testing.T) {
 			}
 		}
 
+		// what the case exercises in size (measured on what was sent and on the in-process answer)
+		reqBodyLen, reqHdrLen, reqDocLen := len(q.body()), 0, len(q.body())+len(q.target())
+		for _, kv := range q.headers() {
+			reqHdrLen = max(reqHdrLen, len(kv[1]))
+			reqDocLen += len(kv[0]) + len(kv[1])
+		}
+
+		respBodyLen, respHdrLen, respDocLen := len(r.in.Body)/2, 0, len(r.in.Body)/2
+		for k, v := range r.in.Headers {
+			respHdrLen = max(respHdrLen, len(strings.Join(v, ", ")))
+			respDocLen += len(k) + len(strings.Join(v, ", "))
+		}
+
+		for _, m := range []struct {
+			name string
+			n    int
+		}{{"req_body", reqBodyLen}, {"req_header", reqHdrLen}, {"resp_body", respBodyLen}, {"resp_header", respHdrLen}} {
+			switch {
+			case m.n >= c41KiB(1024):
+				st.Inc("size_" + m.name + "_ge_1MiB")
+			case m.n >= c41KiB(64):
+				st.Inc("size_" + m.name + "_ge_64KiB")
+			case m.n >= c41KiB(4):
+				st.Inc("size_" + m.name + "_ge_4KiB")
+			}
+		}
+
 		fail := func(class, what string, got, want any) {
-			g, _ := json.Marshal(got)
-			w, _ := json.Marshal(want)
+			g, _ := json.Marshal(c41Brief(got))
+			w, _ := json.Marshal(c41Brief(want))
 			fo.Write(verifh.Failure{Class: class, What: what, Input: string(cj), Got: string(g), Want: string(w)})
 			st.Inc("fail:" + class)
 		}
@@ -1402,8 +1820,14 @@ func TestVerifC41(t *testing.T) {
 		}
 
 		// correspondence with the Lean model: the request document, then the response re-encoding
-		in, impl := c41ReqLines(c, r.rq)
-		co.Write(verifh.Case{In: in, Impl: impl, Desc: fmt.Sprintf("case %d request document", i)})
+		// (the model walks byte lists: documents above c41ModelMax are left to the oracle above, and counted)
+		if reqDocLen <= c41ModelMax() {
+			in, impl := c41ReqLines(c, r.rq)
+			co.Write(verifh.Case{In: in, Impl: impl, Desc: fmt.Sprintf("case %d request document", i)})
+			st.Inc("req_lines")
+		} else {
+			st.Inc("req_lines_skipped_large")
+		}
 
 		// (an echo of request fields the transport altered is a different handler outcome, not a re-encoding)
 		echoAltered := false
@@ -1428,9 +1852,11 @@ func TestVerifC41(t *testing.T) {
 			st.Inc("resp_skipped_401_realm_clash")
 		}
 
-		if c.Svc.Kind == "gen" && c.Svc.Err == "" && r.in.Status >= 100 && !echoAltered && !realmClash {
+		if c.Svc.Kind == "gen" && c.Svc.Err == "" && r.in.Status >= 100 && !echoAltered && !realmClash && reqDocLen+respDocLen > c41ModelMax() {
+			st.Inc("resp_lines_skipped_large")
+		} else if c.Svc.Kind == "gen" && c.Svc.Err == "" && r.in.Status >= 100 && !echoAltered && !realmClash {
 			hdr := http.Header{}
-			for _, kv := range q.Headers {
+			for _, kv := range q.headers() {
 				hdr[http.CanonicalHeaderKey(kv[0])] = append(hdr[http.CanonicalHeaderKey(kv[0])], kv[1])
 			}
 
